@@ -266,23 +266,23 @@ impl<T: Object> Object for StreamInfo<T> {
             dict.remove("Length").ok_or(PdfError::MissingEntry{ typ: "StreamInfo", field: "Length".into() })?,
             resolve)?;
 
-        let filters = Vec::<Name>::from_primitive(
+        let filters = from_primitive_or_null::<Vec<Name>>(
             dict.remove("Filter").unwrap_or(Primitive::Null),
             resolve)?;
 
-        let decode_params = Vec::<Option<Dictionary>>::from_primitive(
+        let decode_params = from_primitive_or_null::<Vec<Option<Dictionary>>>(
             dict.remove("DecodeParms").unwrap_or(Primitive::Null),
             resolve)?;
 
-        let file = Option::<FileSpec>::from_primitive(
+        let file = from_primitive_or_null::<Option<FileSpec>>(
             dict.remove("F").unwrap_or(Primitive::Null),
             resolve)?;
 
-        let file_filters = Vec::<Name>::from_primitive(
+        let file_filters = from_primitive_or_null::<Vec<Name>>(
             dict.remove("FFilter").unwrap_or(Primitive::Null),
             resolve)?;
 
-        let file_decode_params = Vec::<Dictionary>::from_primitive(
+        let file_decode_params = from_primitive_or_null::<Vec<Dictionary>>(
             dict.remove("FDecodeParms").unwrap_or(Primitive::Null),
             resolve)?;
 
